@@ -494,4 +494,36 @@ func genC20(g *G) {
 		}
 		g.Emit("merge", g.Pick([]string{"d", "f", "e"}), joinOr(loc, ";"), joinOr(sh, ";"))
 	}
+	// --- durations: integer terms at the unit boundaries, through every loader
+	hs := func(t string) string { return hx([]byte(t)) }
+	durs := []string{"0", "+0", "-0", "1ns", "1us", "1µs", "1μs", "1ms", "1s", "1m", "1h", "5m", "1h30m", "2h45m30s", "90m", "0s", "00s", "007s",
+		"1s1s", "1ns1h", "-5s", "+5s", "-1h30m", "9223372036s", "9223372037s", "-9223372036s", "2562047h", "2562048h", "153722867m", "153722868m",
+		"9223372036854775807ns", "9223372036854775808ns", "-9223372036854775808ns", "-9223372036854775809ns", "9223372036854775809ns",
+		"9223372036854775808ns9223372036854775808ns", "99999999999999999999s", "2562047h47m16s854ms775us807ns", "2562047h47m16s854ms775us808ns",
+		"5", "s", "1d", "1 s", "1S", "h1", "--1s", "1s-", "1ss"}
+	for _, f := range c20DurFields {
+		for _, l := range []string{"d", "f", "e"} {
+			g.Emit("dur", f, l, "-")
+		}
+	}
+	for i, d := range durs {
+		for _, l := range []string{"d", "f", "e"} {
+			g.Emit("dur", c20DurFields[i%len(c20DurFields)], l, hs(d))
+		}
+	}
+	units := []string{"ns", "us", "µs", "ms", "s", "m", "h"}
+	for i := 0; i < g.Count(600, 30000); i++ {
+		t := g.Pick([]string{"", "", "-", "+"})
+		for j := 0; j <= g.Intn(3); j++ {
+			v := uint64(g.Intn(1000))
+			switch g.Intn(6) {
+			case 0:
+				v = g.U64() >> uint(g.Intn(64))
+			case 1:
+				v = []uint64{9223372036854775807, 9223372036, 153722867, 2562047, 9223372036854}[g.Intn(5)] + uint64(g.Intn(3))
+			}
+			t += utoa(v) + g.Pick(units)
+		}
+		g.Emit("dur", g.Pick(c20DurFields), g.Pick([]string{"d", "f", "e"}), hs(t))
+	}
 }
